@@ -52,7 +52,7 @@ SVIDS = [10, "svt", 1002, 1003, 1004, 1005, 9999, "nope"]
 ECIDS = [1, 2, 20, 21, "ecf", 9999, "nope"]
 ALIDS = [25, 26, 27, 99]
 OPS = ["s1f3", "s1f11", "s2f13", "s2f29", "s2f15", "s2f15", "s2f15", "s5f3", "s5f3", "s5f5", "s5f7", "alarm", "alarm",
-       "alarm", "setsv"]
+       "alarm", "setsv", "alarm_pair"]
 # ec id -> (type code, min, max, default, name, unit)
 EC_DEF = {1: (rc.I2, 10, 120, 10, "EstablishCommunicationsTimeout", "sec"), 2: (rc.I4, 0, 2, 1, "TimeFormat", ""),
           20: (rc.U4, 0, 100, 50, "ec20", "mm"), 21: (rc.U1, None, None, 5, "ec21", ""),
@@ -87,6 +87,10 @@ def gen_plan(rng, tier, index):
             ops.append([op])
         elif op == "alarm":
             ops.append([op, rng.choice(["set", "set", "clear"]), rng.choice(ALIDS[:3]), rng.random() < 0.85])
+        elif op == "alarm_pair":
+            # two application threads change two different alarms at the same time
+            a1, a2 = rng.sample(ALIDS[:3], 2)
+            ops.append([op, [rng.choice(["set", "set", "clear"]), a1], [rng.choice(["set", "set", "clear"]), a2]])
         else:
             ops.append([op, rng.choice([10, "svt"]), rng.randrange(1000)])
     plan = {"ops": ops, "active": rng.random() < 0.3, "latency": rng.choice([0.0, 0.0005, 0.01])}
@@ -460,6 +464,36 @@ def run(sim, plan):
                 if gid != alid or gset != (what == "set") or gcode != a["code"]:
                     viol("C13.R4", f"S5F1 for {what}_alarm({alid}): ALID {gid} set={gset} code={gcode}", "C13.R4|s5f1-content")
             s5f2_answer["on"] = True
+        elif kind == "alarm_pair":
+            flags["alarm"] = True
+            sim.probe("alarm_pair")
+            new_s5f1()
+            s5f2_answer["on"] = True
+            recs = []
+            want = []
+            for what, alid in (op[1], op[2]):
+                a = alarm[alid]
+                change = (what == "set") != a["set"]
+                if change and a["enabled"]:
+                    want.append((alid, what == "set", a["code"]))
+                if change:
+                    a["set"] = what == "set"
+                rec = {"done": False}
+                recs.append(rec)
+
+                def body(what=what, alid=alid, rec=rec):
+                    (eq.set_alarm if what == "set" else eq.clear_alarm)(alid)
+                    rec["done"] = True
+
+                sim.spawn(body, f"app_alarm_{what}_{alid}", role="app")
+            sim.focus(2)
+            if not sim.wait_until(lambda: all(r["done"] for r in recs), 2 * T3 + 2):
+                viol("C13.R4", f"concurrent alarm changes {op[1:]} did not return", "C13.R4|alarm-call-stuck")
+            sim.advance(0.2)
+            got = new_s5f1()
+            if sorted(got) != sorted(want):
+                viol("C13.R4", f"concurrent alarm changes {op[1:]}: S5F1 reports {got}, expected {want} (any order)",
+                     "C13.R4|s5f1-concurrent")
         else:
             vid, n = op[1], op[2]
             if vid == 10:
